@@ -370,6 +370,7 @@ type runner struct {
 	udp     bool
 	extra   []*bmc.V2SessionlessTransport
 	kept    map[string]ipmi.Command // command values reused across calls of one script (step option "keep")
+	fsr     *ipmi.FullSensorRecord  // one record value decoded into repeatedly (NewSensorReader option "sharedRecord")
 	pwBuf   []byte                  // credential buffers rewritten in place (script option "reuseCreds")
 	kgBuf   []byte
 }
@@ -601,6 +602,13 @@ func (r *runner) invoke(ctx context.Context, s M, ret M) {
 	case "NewSensorReader":
 		// args: {"fsr": <bytes of a Full Sensor Record body>, "name": key}
 		fsr := &ipmi.FullSensorRecord{}
+		if args["sharedRecord"] == true {
+			// the caller decodes successive records into one FullSensorRecord value and builds a reader after each
+			if r.fsr == nil {
+				r.fsr = &ipmi.FullSensorRecord{}
+			}
+			fsr = r.fsr
+		}
 		if e := fsr.DecodeFromBytes(ints(args["fsr"]), gopacket.NilDecodeFeedback); e != nil {
 			setErr(e)
 			ret["stage"] = "decode"
